@@ -86,12 +86,14 @@ type Cell struct {
 	born uint32
 	parr *ArrObj // backing array this cell is an element of (for unsafe.String/Slice)
 	pidx int
+	bad  string // non-empty: the initialiser of this (global) memory could not be executed
 }
 
 type ArrObj struct {
 	cells []*Cell
 	et    types.Type
 	born  uint32
+	bad   string
 }
 
 type mapEnt struct {
@@ -104,6 +106,7 @@ type MapObj struct {
 	vt    types.Type
 	born  uint32
 	saved uint32 // epoch in which a snapshot was logged
+	bad   string
 }
 
 type RangeIter struct {
@@ -253,6 +256,9 @@ func (in *Interp) elem(a *ArrObj, i int) *Cell {
 		in.epoch = a.born
 		c = in.newCell(a.et)
 		in.epoch = save
+		if a.bad != "" {
+			in.poisonCell(c, a.bad)
+		}
 		c.parr, c.pidx = a, i
 		a.cells[i] = c
 	}
@@ -262,6 +268,9 @@ func (in *Interp) elem(a *ArrObj, i int) *Cell {
 func (in *Interp) load(c *Cell) Value {
 	switch c.kind {
 	case 0:
+		if c.bad != "" {
+			panic(unsupported("read of memory whose package initialiser could not be executed (" + c.bad + ")"))
+		}
 		return c.v
 	case 1:
 		s := &StructV{f: make([]Value, len(c.sub))}
@@ -274,6 +283,9 @@ func (in *Interp) load(c *Cell) Value {
 		var z Value
 		for i := 0; i < c.n; i++ {
 			ec := c.arr.cells[c.off+i]
+			if ec == nil && c.arr.bad != "" {
+				panic(unsupported("read of memory whose package initialiser could not be executed (" + c.arr.bad + ")"))
+			}
 			if ec == nil {
 				if z == nil {
 					z = in.zero(c.arr.et)
@@ -294,6 +306,7 @@ func (in *Interp) store(c *Cell, v Value) {
 			in.undo = append(in.undo, undoRec{c: c, old: c.v})
 		}
 		c.v = v
+		c.bad = ""
 	case 1:
 		s, ok := v.(*StructV)
 		if !ok {
